@@ -682,6 +682,16 @@ func (ex *Exec) runTop(fn *ssa.Function) {
 			v := env.evalBool(c.E)
 			st.assume(v)
 		}
+		for _, u := range f.con.Uses {
+			l := ex.prog.lemmaByName(u)
+			if l == nil {
+				panic("uses: unknown axiom or lemma " + u)
+			}
+			st.assume(ex.prog.quantifiedLemma(ex, st, f, l))
+			if l.Axiom {
+				ex.assumed["axiom "+l.Name+": "+l.Src] = true
+			}
+		}
 		for _, c := range f.con.Assumes {
 			st.assume(env.evalBool(c.E))
 			ex.assumed["spec definition/axiom assumed in "+f.key+": "+c.Src] = true
